@@ -75,6 +75,8 @@ def generate(check, rng, tier, run_index):
     for _ in range(nops):
         k = rng.weighted(W)
         o = {'op': k, 'i': rng.below(1 << 10)}
+        if k == 'pdb':
+            o['ter'] = rng.chance(0.7)
         if k in ('subset', 'traj_atom_slice'):
             o['bits'] = rng.below(1 << 48) | (1 << rng.below(8))
         elif k in ('join', 'traj_stack'):
@@ -242,30 +244,42 @@ def carrier_limits(carrier, model):
         if any(a['serial'] is None or a['serial'] == 'nan' for a in model['atoms']):
             lim.add('serial')
     elif carrier == 'pdb':
-        ok = True
-        if len(model['chains']) != 1:
-            ok = False                             # serials are renumbered for more than one chain (TER records)
+        # independent limits of the fixed-width format and of the reader's conventions
+        structural = False
         if any(r['name'] in PDB_STANDARD or len(r['name']) > 3 for r in model['residues']):
-            ok = False                             # reader renames atoms of standard residues and re-creates template bonds
+            structural = True                      # reader renames atoms of standard residues and re-creates template bonds
         if any(not (0 <= r['resSeq'] <= 9999) for r in model['residues']):
-            ok = False
+            structural = True
         if any(len(r['seg']) > 4 for r in model['residues']):
-            ok = False
-        if any(a['elem'] == 'VS' or len(a['name']) > 4 or a['serial'] is None or not isinstance(a['serial'], int) or not (0 <= a['serial'] < 100000) for a in model['atoms']):
-            ok = False
-        if len(set(a['serial'] for a in model['atoms'])) != len(model['atoms']):
-            ok = False
+            structural = True
+        if any(a['elem'] == 'VS' or len(a['name']) > 4 for a in model['atoms']):
+            structural = True
         rs = model['residues']
         for a, b in zip(rs[:-1], rs[1:]):
             if a['chain'] == b['chain'] and a['resSeq'] == b['resSeq']:
-                ok = False                         # residues are told apart by their number in the file
+                structural = True                  # residues are told apart by their number in the file
         if any(c is not None and len(c) != 1 for c in chain_ids):
-            ok = False
-        if not ok:
+            structural = True
+        ids = [c for c in chain_ids]
+        if len(model['chains']) > 1 and (any(c is None for c in ids) is False) and len(set(ids)) != len(ids):
+            structural = True                      # two chains with the same one-letter id are merged by the reader
+        if len(model['chains']) > 26:
+            structural = True
+        serial_ok = (len(model['chains']) == 1 and
+                     all(isinstance(a['serial'], int) and 0 <= a['serial'] < 100000 for a in model['atoms']) and
+                     len(set(a['serial'] for a in model['atoms'])) == len(model['atoms']))
+        if structural:
             lim.update(['atom_name', 'element', 'serial', 'residue_partition', 'residue_name', 'resSeq', 'segment_id',
                         'chain_partition', 'chain_id', 'bond_graph', 'n_atoms'])
-        elif any(c is None for c in chain_ids):
-            lim.add('chain_id')                    # a chain without id is written as 'A', 'B', ... by position
+        else:
+            if not serial_ok:
+                lim.add('serial')                  # renumbered 1..n (TER records counted) for more than one chain or unusable serials
+                if len(model['chains']) == 1:
+                    lim.add('bond_graph')          # duplicate / missing serials in a single chain: CONECT cannot address the atoms
+            if any(c is None for c in chain_ids):
+                lim.add('chain_id')                # a chain without id is written as 'A', 'B', ... by position
+                if len(model['chains']) > 1 and any(c is not None for c in chain_ids):
+                    lim.update(['chain_partition', 'residue_partition', 'residue_name', 'resSeq', 'segment_id'])  # positional letters may collide with given ids
     return lim
 
 
@@ -463,7 +477,11 @@ def execute(check, case, workdir):
                 xyz = np.arange(n * 3, dtype=np.float32).reshape(1, n, 3) * 0.01
                 t = md.Trajectory(xyz, top)
                 p = os.path.join(workdir, 'top%d.%s' % (stepno, kind))
-                t.save(p)
+                if kind == 'pdb' and not op.get('ter', True):
+                    t.save_pdb(p, ter=False)
+                    res.probe('pdb_saved_without_ter')
+                else:
+                    t.save(p)
                 top2 = md.load(p).topology
                 drop = ('bond_type', 'bond_order')      # neither the PDB format nor the HDF5 topology JSON (pairs only) can hold them
                 derived(kind, m, top2, m.model, stepno, drop=drop, carrier=True)
